@@ -21,14 +21,14 @@ import (
 
 // C14Case: an ADMINGROUPS setting and a caller.
 type C14Case struct {
-	AdminGroups []string `json:"adminGroups"` // nil = variable unset
-	Identity    string   `json:"identity"`    // none | name | preferred_username | both
-	Groups      []string `json:"groups"`      // the caller's groups
-	HasGroups   bool     `json:"hasGroups"`   // false: the groups key is absent altogether
-	Form        string   `json:"form"`        // joined (one ';'-joined value) | repeated (one metadata value per group)
-	E2E         bool     `json:"e2e"`         // also send a real Set / Get through the handlers
-	OIDC        bool     `json:"oidc"`        // OIDC_SERVER_URL set for the Get part
-	ROCOverride string   `json:"rocOverride"` // AetherROCAdmin env override ("" = unset)
+	AdminGroups []string `json:"adminGroups"`        // nil = variable unset
+	Identity    string   `json:"identity"`           // none | name | preferred_username | both
+	Groups      []string `json:"groups"`             // the caller's groups
+	HasGroups   bool     `json:"hasGroups"`          // false: the groups key is absent altogether
+	Form        string   `json:"form"`               // joined (one ';'-joined value) | repeated (one metadata value per group)
+	E2E         bool     `json:"e2e"`                // also send a real Set / Get through the handlers
+	OIDC        bool     `json:"oidc"`               // OIDC_SERVER_URL set for the Get part
+	ROCOverride string   `json:"rocOverride"`        // AetherROCAdmin env override ("" = unset)
 	ROCEmpty    bool     `json:"rocEmpty,omitempty"` // the variable is SET, to the empty string (means: not overridden)
 }
 
